@@ -85,10 +85,10 @@ Proof.
 Qed.
 
 (* ?? evaluates its right side only when the left is nil or fails *)
-Theorem coalesce_skips_right_when_left_is_a_value : forall rec l r s s1,
+Theorem coalesce_skips_right_when_left_is_a_value : forall cancel rec l r s s1,
   rec (CExpr l) s = Ok s1 -> is_nil (deref (r_st s1) (r_rv s1)) = false ->
-  invoke_coalesce rec l r s = Ok s1.
-Proof. intros rec l r s s1 Hl Hn. unfold invoke_coalesce. now rewrite Hl, Hn. Qed.
+  invoke_coalesce cancel rec l r s = Ok s1.
+Proof. intros cancel rec l r s s1 Hl Hn. unfold invoke_coalesce. now rewrite Hl, Hn. Qed.
 
 (* binary operators: left operand, then right operand, each once *)
 Theorem binary_operands_left_then_right : forall rec l r s k,
